@@ -11,7 +11,6 @@ use std::panic::AssertUnwindSafe;
 
 type Sig = [u8; 64];
 type Pk = [u8; 32];
-type Sk = [u8; 64];
 
 fn seeds(seed: u64) -> Vec<[u8; 32]> {
     let mut v: Vec<[u8; 32]> = (0..5).map(|i| karr(seed ^ 0x5ee, i)).collect();
@@ -247,7 +246,7 @@ pub fn run() -> i32 {
         let m = cval(seed, 3, base_lens[li]);
         let sig = if ph { sodium::sign_ph_create(&[&m], &sk) } else { sodium::sign_detached(&m, &sk) };
         let dumpn = std::cell::Cell::new(0usize);
-        let mut go = |kind: String, sig: &Sig, m: &[u8], pk: &Pk, must_reject: bool, st: &mut Stats| {
+        let go = |kind: String, sig: &Sig, m: &[u8], pk: &Pk, must_reject: bool, st: &mut Stats| {
             let (oc, f) = check_negative(&kind, ph, sig, m, pk, must_reject);
             dumpn.set(dumpn.get() + 1);
             let structural = !(kind.starts_with("msg-bit") || kind.starts_with("sig-bit") || kind.starts_with("pk-bit") || kind.starts_with("small-order(R#"));
@@ -366,7 +365,6 @@ pub fn run() -> i32 {
         }
     });
     ctx.absorb("negative", st);
-    drop(dump);
     {
         use std::io::Write;
         corpus.into_inner().unwrap().flush().unwrap();
